@@ -172,7 +172,19 @@ def crate_C05(rep, F, gens):
     return rules.check_ctor_sites(rep, F, gens)
 
 
-CRATE_PROPS = {'C05': crate_C05, 'C04': crate_C05, 'C12': crate_C05, 'C09': crate_C05, 'C03': crate_C05, 'C06': crate_C05}
+def _crate(methods=None, only=None):
+    return lambda rep, F, gens: rules.check_ctor_sites(rep, F, gens, methods=methods, only=only)
+
+
+# the who-may-construct scan is part of several properties, each restricted to the entry points it talks about
+CRATE_PROPS = {
+    'C05': crate_C05,
+    'C03': _crate(methods={'try_from', 'from', 'from_str', 'default'}),
+    'C04': _crate(methods={'deserialize', 'visit_newtype_struct', 'expecting'}),
+    'C06': _crate(methods={'from_str'}, only=lambda g: g.d['family'] != 'string'),
+    'C09': _crate(methods={'arbitrary', 'size_hint'}),
+    'C12': _crate(only=lambda g: g.d['family'] == 'float' and bool({'Eq', 'Ord'} & set(g.d['derives']))),
+}
 
 from . import witcat
 
